@@ -458,6 +458,12 @@ func (e *codecEnv) checkpointStorage(rng *rand.Rand, ps *atree.PersistentSlabSto
 			e.oracleSlab(deltas[id])
 		}
 	}
+	if e.encPanic {
+		// EncodeSlab panicked on a slab of this write set (reported above): the commit would run the same
+		// encoder in a worker goroutine and take the process down with the report
+		e.encPanic = false
+		return
+	}
 	if err := ps.FastCommit(1 + rng.Intn(3)); err != nil {
 		e.violation("C03", "fault-free commit failed: "+err.Error())
 	}
